@@ -6,6 +6,9 @@ re_linearize_after_calibration`, a copy/paste slip) makes two options aliases of
 would be none the wiser as long as it reads the attribute it set itself.  Decided by interpretation: the class is instantiated with one distinct atom per
 parameter; an attribute that has the name of a parameter must depend, by value, on that parameter and on no other one.  (Attributes that are computed from
 several parameters do not carry a parameter's name in this library; one that does is reported as inconclusive, not as a violation.)
+
+Second obligation per stored option: it is *read* -- an attribute load of that name exists somewhere in the package outside display methods and
+constructors.  `jacobian_materialize.jacfun` was stored, shown by __repr__ and never read: the three methods hard-coded forward mode (F34).
 """
 
 from __future__ import annotations
@@ -23,8 +26,43 @@ def _params(ci):
     return fn
 
 
+_DISPLAY = {"__repr__", "__str__", "__eq__", "__hash__", "__init__"}
+_READS = {}
+
+
+def _attribute_reads(p):
+    """{attribute name: [(module, function)]} for every attribute LOAD outside display methods and constructors, over the whole package."""
+    key = id(p)
+    if key in _READS:
+        return _READS[key]
+    out = {}
+
+    def walk(m, node, fn):
+        for ch in ast.iter_child_nodes(node):
+            f2 = ch.name if isinstance(ch, (ast.FunctionDef, ast.AsyncFunctionDef)) else fn
+            if isinstance(ch, ast.Attribute) and isinstance(ch.ctx, ast.Load) and fn not in _DISPLAY:
+                out.setdefault(ch.attr, []).append((m.name, fn))
+            walk(m, ch, f2)
+
+    for m in p.modules.values():
+        walk(m, m.tree, None)
+    _READS.clear()
+    _READS[key] = out
+    return out
+
+
+def _option_is_read(S, rule, cname, nm, where):
+    """A stored option nobody reads is an option that is ignored: whatever the caller passes, the methods do what they always do."""
+    reads = _attribute_reads(S.p).get(nm, [])
+    rule.require(bool(reads), f"{cname}.{nm} is read by the code", f"{len(reads)} read(s), e.g. in {reads[0][0]}.{reads[0][1]}" if reads else "",
+                 f"self.{nm} is stored by the constructor and read nowhere in the package outside __repr__ / __init__: the option `{nm}` is ignored", where)
+
+
 def ctor_wiring_rules(chk, S, rule, class_quals):
     n = 0
+    extra = "; and every option a constructor stores is read somewhere in the package outside __repr__ / __init__ (an option nobody reads is ignored)"
+    if extra not in rule.text:
+        rule.text += extra
     for qual in class_quals:
         try:
             ci = S.p.find_class(qual)
@@ -57,6 +95,7 @@ def ctor_wiring_rules(chk, S, rule, class_quals):
                 if nm in stores:
                     n += 1
                     others = sorted(stores[nm] - {nm})
+                    _option_is_read(S, rule, cname, nm, where)
                     rule.require(nm in stores[nm] and not others, f"{cname}.{nm} holds the constructor argument {nm}", f"self.{nm} is computed from {nm}",
                                  f"self.{nm} is computed from {sorted(stores[nm]) or 'no parameter'}: the option `{nm}` is an alias of {others or 'a constant'}", where)
             continue
@@ -68,6 +107,7 @@ def ctor_wiring_rules(chk, S, rule, class_quals):
             if nm not in obj.fields:
                 continue  # not stored under its own name (consumed by the constructor)
             n += 1
+            _option_is_read(S, rule, cname, nm, where)
             deps = {d for d in T.atoms_of(obj.fields[nm]) if d.startswith("ctor.")}
             own = f"ctor.{nm}"
             others = sorted(d[5:] for d in deps if d != own)
